@@ -41,6 +41,8 @@ MANIFEST = dict(
     engines=[dict(name="E-parse", path="harness/src/eng_ranges.rs + coq/extract/eng_ranges.ml (+ eng_outline, treedump.rs, tree_io.ml)",
                   kind_free_text="differential: tokens, lexer errors, tree dump, Document.parser_diagnostics (parser + lexer) and outline of the real code vs the extracted Coq models; property oracle over every range of the implementation's output")],
 )
+MANIFEST["text"] += ' Fourth session: class headers below comment lines in the cross-file workspaces (a class item must name the declaring file: /repo 6242e0e).'
+
 ASSUMPTIONS = [
     "the semantic responses (definition links, type-hierarchy items, lint diagnostics) copy node / identifier-token ranges built by the parser; they are checked by C10/C13 with range_ok / sel_inside from this module",
     "a document's line count is 1 + number of LF characters (the lexer's own notion; a lone CR is not a line break for it)",
